@@ -89,7 +89,8 @@ TrRestart == IsEvent("restart")  /\ Restart /\ OutOK(Ev) /\ PendNext(Ev)
 TrEnd     == IsEvent("end")      /\ End(Ev.c) /\ Fin(Ev) /\ PendNext(Ev)
 (* C09: the broker is still there (the event exists), the hostile connection is closed or answered, everybody else is
    served exactly as the model says - in this step and in all later ones *)
-TrCluster == IsEvent("cluster")  /\ ~Ev.panic /\ ClusterHostile /\ OutOK(Ev)       \* a panic on the gossip goroutine is a process exit /\ PendNext(Ev)
+TrCluster == IsEvent("cluster")  /\ ~Ev.panic /\ ClusterHostile /\ OutOK(Ev) /\ PendNext(Ev)      \* a panic on the gossip goroutine is a process exit
+TrStranger == IsEvent("stranger") /\ Stranger /\ OutOK(Ev) /\ PendNext(Ev)
 TrHostile == IsEvent("hostile")  /\ Hostile(Ev.c, Ev.cls, Ev.closed) /\ OutOK(Ev) /\ PendNext(Ev)
 
 TrConcDone == IsEvent("concdone") /\ UNCHANGED allvars /\ pend' = NoPend
@@ -97,7 +98,7 @@ TrConcDone == IsEvent("concdone") /\ UNCHANGED allvars /\ pend' = NoPend
 
 TraceInit == SessionInit /\ l = 1 /\ pend = NoPend /\ MarkInit
 (* a "broker-died" event (the process exited, hung or ran out of its memory ceiling) has no action: never explained *)
-TraceNext == TrReset \/ TrConnect \/ TrSub \/ TrUnsub \/ TrPub \/ TrLink \/ TrPres \/ TrEnd \/ TrHostile \/ TrCluster \/ TrConcDone \/ TrRestart
+TraceNext == TrReset \/ TrConnect \/ TrSub \/ TrUnsub \/ TrPub \/ TrLink \/ TrPres \/ TrEnd \/ TrHostile \/ TrCluster \/ TrConcDone \/ TrRestart \/ TrStranger
 MarkC     == Mark(l)
 TraceInv  == TrieIsHeld /\ NothingLeftBehind
 =============================================================================
